@@ -153,8 +153,6 @@ pub trait ObjectAssertion: Trace {
 enum CacheValue {
 	Cached(Result<Option<Val>>),
 	Pending,
-	/// Pending, and already entered a second time while the assertions of the object were running
-	PendingAsserting,
 }
 
 pub type EnumFieldsHandler<'a> =
@@ -248,9 +246,6 @@ struct ObjValueInner {
 
 thread_local! {
 	static RUNNING_ASSERTIONS: RefCell<FxHashSet<ObjValue>> = RefCell::default();
-}
-fn is_asserting(obj: &ObjValue) -> bool {
-	RUNNING_ASSERTIONS.with_borrow(|v| v.contains(obj))
 }
 /// Returns false if already asserting
 fn start_asserting(obj: &ObjValue) -> bool {
@@ -600,22 +595,17 @@ impl ObjValue {
 	}
 
 	fn get_idx(&self, key: IStr, core: CoreIdx) -> Result<Option<Val>> {
+		// Before the field is marked as pending: an assertion may read (and cache) the very field
+		// whose read has started the assertions, it should not be evaluated again afterwards
+		self.run_assertions()?;
 		let cache_key = (key.clone(), core);
 		{
 			let mut cache = self.0.value_cache.borrow_mut();
 			// entry_ref candidate?
 			match cache.entry(cache_key.clone()) {
-				Entry::Occupied(mut v) => match v.get() {
+				Entry::Occupied(v) => match v.get() {
 					CacheValue::Cached(v) => return v.clone(),
-					CacheValue::Pending => {
-						if !is_asserting(self) {
-							bail!(InfiniteRecursionDetected);
-						}
-						// An assertion may read the field whose read has started the assertions,
-						// but only once: the field itself reading it again depends on itself
-						v.insert(CacheValue::PendingAsserting);
-					}
-					CacheValue::PendingAsserting => bail!(InfiniteRecursionDetected),
+					CacheValue::Pending => bail!(InfiniteRecursionDetected),
 				},
 				Entry::Vacant(v) => {
 					v.insert(CacheValue::Pending);
@@ -630,7 +620,6 @@ impl ObjValue {
 		result
 	}
 	fn get_idx_uncached(&self, key: IStr, core: CoreIdx) -> Result<Option<Val>> {
-		self.run_assertions()?;
 		let mut first_add = None;
 		let mut add_stack: Vec<Val> = Vec::new();
 		let mut skip = Saturating(0);
